@@ -180,6 +180,8 @@ def decode(code):
         mid = {}
         for at, e in mids:
             d = dec_edit(e)
+            if e[0] == 2 and e[3] % 4 == 0:
+                d = ["ext", "done" if e[1] == 4 else names[e[1] % n]]
             if d and at < len(tms):
                 mid.setdefault(str(at), []).append(d)
         periods.append({"edits": [d for d in map(dec_edit, edits) if d], "tms": tms, "mid": mid})
@@ -296,6 +298,21 @@ class C15(Lab):
             exp_now = []
             for k, tm in enumerate(per["tms"]):
                 for ed in per["mid"].get(str(k), []):
+                    if ed[0] == "ext":
+                        # next_state()/done() called between iterations (by the robot program, not by a state):
+                        # they take effect from the next iteration just the same
+                        try:
+                            if ed[1] == "done":
+                                mode.done()
+                                model.cur = None
+                            else:
+                                mode.next_state(ed[1])
+                                model.cur = ed[1]
+                                model.has_run[ed[1]] = False
+                        except Exception as e:
+                            raise exc_violation("C15", e, f"external {ed}; case: {case}")
+                        model.bump("external-" + ("done" if ed[1] == "done" else "next_state"))
+                        continue
                     apply(ed)  # edits during a period must not matter until the next on_enable
                 del mode._trace[:]
                 try:
